@@ -459,3 +459,35 @@ func ascendingSortCall(in ssa.Instruction) (*ssa.CallCommon, bool) {
 	}
 	return nil, false
 }
+
+// calledOnlyFrom: fn has at least one static caller among fns and every static caller of fn (among fns) satisfies ok,
+// transitively through helpers that are themselves called only from such functions.
+func calledOnlyFrom(fn *ssa.Function, fns []*ssa.Function, ok func(*ssa.Function) bool) bool {
+	var rec func(f *ssa.Function, d int) bool
+	rec = func(f *ssa.Function, d int) bool {
+		if ok(f) {
+			return true
+		}
+		if d > 4 {
+			return false
+		}
+		n := 0
+		for _, g := range fns {
+			calls := false
+			eachInstr(g, func(_ *ssa.BasicBlock, in ssa.Instruction) {
+				if ci, isCall := in.(ssa.CallInstruction); isCall && ci.Common().StaticCallee() == f {
+					calls = true
+				}
+			})
+			if !calls || g == f {
+				continue
+			}
+			n++
+			if !rec(g, d+1) {
+				return false
+			}
+		}
+		return n > 0
+	}
+	return rec(fn, 0)
+}
